@@ -951,6 +951,9 @@ func syncwireSuite(seed uint64, tier, outDir string) (*core.Result, error) {
 	for _, s := range []uint32{0, 1, 7, 8, 9, 15, 16, uint32(rng.Range(17, 400)), 431, 432} {
 		report(main, s, uint64(rng.Range(2, 1<<30)), 0)
 	}
+	report(main, 10, ^uint64(0)-499, 0) // a negative reading (-500 as the client encodes it): a record like any other
+	report(main, 11, 1<<63, 0)          // the most negative value
+	report(main, 12, 1<<63-1, 0)        // the largest positive one: over capacity, the slot is banned (still a record)
 	report(main, 5, 777, 0)
 	report(main, 5, 778, 0) // second, different report: the slot is banned (PowerOutput 1) and still counts as a record
 	report(main, 433, 5, 0) // too far in the future: refused
@@ -962,7 +965,7 @@ func syncwireSuite(seed uint64, tier, outDir string) (*core.Result, error) {
 		posted = append(posted, k)
 		postServer(i, false, k.pub)
 	}
-	waitRecords(main, func(p []uint64) bool { return p[432] != 0 && p[5] == 1 })
+	waitRecords(main, func(p []uint64) bool { return p[432] != 0 && p[5] == 1 && p[10] != 0 && p[11] != 0 && p[12] != 0 })
 	if err := snapshot(main, "lower-edge"); err != nil {
 		return nil, err
 	}
